@@ -6,3 +6,7 @@ check("C18", "exhaustive prefix-length sweep + Hypothesis addresses; integer-ran
       "All 33 IPv4 and 129 IPv6 prefix lengths over boundary and drawn base addresses. IPv4 exactness is decided on integer ranges computed from the pattern text by a glob automaton (not by sampling addresses); IPv6 completeness on all hosts for small host parts and on boundary/compression-critical hosts otherwise.",
       "Trusted: python ipaddress for membership and canonical IPv6 text; glob semantics '*' any run.",
       "DESIGN.md section 3, C18")
+check("C04", "exhaustive short payloads over a multi-byte alphabet x all alignments + Hypothesis payloads; oracle = stdlib base64/codecs and bit-level implied-substring reference",
+      "All payloads up to 4 (quick) / 5 (thorough) symbols over 1-4-byte characters and escaped wildcards, for every encoding chain; for base64offset every prefix length 0..5 x suffix length 0..5 with extreme (00/ff) and drawn neighbours, which decides 'implied by the payload alone' because a neighbour-dependent character differs between the extremes.",
+      "Trusted: python base64/codecs; 'utf16' = FF FE + UTF-16LE.",
+      "DESIGN.md section 3, C04")
